@@ -40,6 +40,14 @@ structure Inv (s : St) : Prop where
   pcs : ∀ (i : Nat) (v : Voter), s.voters[i]? = some v →
     (v.pc = .dead → v.voted = true) ∧ (∀ c, v.pc = .loaded c → v.voted = true ∧ c ≠ allMask s.n)
 
+/-- The invariant only reads `n`, `flags` and `voters`. -/
+theorem inv_congr {s s' : St} (h : Inv s) (hn : s'.n = s.n) (hf : s'.flags = s.flags) (hv : s'.voters = s.voters) :
+    Inv s' := by
+  have hva : ∀ j, votedAt s' j = votedAt s j := by intro j; simp only [votedAt, hv]
+  refine ⟨by rw [hn]; exact h.n2, by rw [hn]; exact h.n8, by rw [hv, hn]; exact h.len, ?_, ?_⟩
+  · intro j; rw [hf, hn, hva]; exact h.bits j
+  · intro i v hiv; rw [hv] at hiv; rw [hn]; exact h.pcs i v hiv
+
 theorem votedAt_replicate (n j : Nat) : votedAt (init n) j = false := by
   simp only [votedAt, init, List.getElem?_replicate]
   by_cases h : j < n <;> simp [h]
@@ -247,10 +255,20 @@ theorem inv_stepAct {s : St} (h : Inv s) (i : Nat) (a : Act) : Inv (stepAct s i 
   case case12 v hv hpc hvd => exact inv_doVote h hv _ (Or.inr rfl)
   case case13 => exact h
 
+@[simp] theorem step_poll_n (s : St) : (step s .poll).1.n = s.n := by simp only [step]; split <;> rfl
+@[simp] theorem step_poll_flags (s : St) : (step s .poll).1.flags = s.flags := by simp only [step]; split <;> rfl
+@[simp] theorem step_poll_voters (s : St) : (step s .poll).1.voters = s.voters := by simp only [step]; split <;> rfl
+@[simp] theorem votedAt_step_poll (s : St) (j : Nat) : votedAt (step s .poll).1 j = votedAt s j := by
+  simp only [votedAt, step_poll_voters]
+
 theorem inv_step {s : St} (h : Inv s) (e : Ev) : Inv (step s e).1 := by
   cases e with
   | act i a => exact inv_stepAct h i a
-  | poll => exact h
+  | poll =>
+    simp only [step]
+    split
+    · exact h
+    · exact inv_congr h rfl rfl rfl
 
 theorem inv_run {s : St} (h : Inv s) (evs : List Ev) : Inv (run s evs) := by
   induction evs generalizing s with
